@@ -14,6 +14,309 @@ namespace C01
 namespace Emu
 open C03V
 
+/-! ## Interface to the imported models
+
+The C01 proofs touch the models of the other properties ONLY through the lemmas of this section (plus
+`execVALU_unfold` in `C01Valu.lean`, the `rfl` / `decide +kernel` facts about the 27 concrete instructions in
+`C01Copy.lean`, and the meaning lemmas of `Props/C03V.lean`).  When `C03S_Machine.lean`, `C03V.lean` or `C04.lean`
+change shape, these are what has to be re-proved; the instruction classes and the program proof build on them.
+
+### C03S: the scalar machine
+
+`C03S.execute` = `fetch` (operand reads) then `commit` (write-back of `dst`, then EXEC/VCC/SCC/PC). -/
+namespace Iface
+open C03S
+
+/-- the input record `C03S.fetch` builds from the operand values -/
+def scalarIn (st : MState) (s0 s1 dOld simm : Nat) : ScalarIn :=
+  { src0 := BitVec.ofNat 64 s0, src1 := BitVec.ofNat 64 s1, dstOld := BitVec.ofNat 64 dOld,
+    scc := BitVec.ofNat 8 st.scc, vcc := BitVec.ofNat 64 st.vcc, exec := BitVec.ofNat 64 st.exec,
+    pc := BitVec.ofNat 64 st.pc, simm16 := BitVec.ofNat 64 simm }
+
+theorem execute_eq (sem : Sem) (d : DInst) (st : MState) (i : ScalarIn)
+    (h : C03S.fetch sem.src0W sem.src1W d st = some i) : execute sem d st = commit sem.dstW d st (sem.f i) := by
+  simp [execute, h]
+
+theorem fetch_sop2 (w0 w1 op sd a b sm lit : Nat) (st : MState) (s0 s1 : Nat)
+    (h0 : readOpnd st a w0 lit = some s0) (h1 : readOpnd st b w1 lit = some s1) :
+    C03S.fetch w0 w1 ⟨0, op, sd, a, b, sm, lit⟩ st = some (scalarIn st s0 s1 0 sm) := by
+  simp [C03S.fetch, h0, h1, scalarIn]
+
+theorem fetch_sop1 (w0 w1 op sd a b sm lit : Nat) (st : MState) (s0 : Nat)
+    (h0 : readOpnd st a w0 lit = some s0) :
+    C03S.fetch w0 w1 ⟨2, op, sd, a, b, sm, lit⟩ st = some (scalarIn st s0 0 0 sm) := by
+  simp [C03S.fetch, h0, scalarIn]
+
+theorem fetch_sopp (w0 w1 op sd a b sm lit : Nat) (st : MState) :
+    C03S.fetch w0 w1 ⟨4, op, sd, a, b, sm, lit⟩ st = some (scalarIn st 0 0 0 sm) := by
+  simp [C03S.fetch, scalarIn]
+
+theorem read_sgpr32 (st : MState) (code lit : Nat) (h : code ≤ 101) : readOpnd st code 32 lit = some (st.sreg code) := by
+  simp [readOpnd, h]
+theorem read_lit (st : MState) (w lit : Nat) : readOpnd st 255 w lit = some lit := by
+  simp [readOpnd]
+theorem read_vcc64 (st : MState) (lit : Nat) : readOpnd st 106 64 lit = some st.vcc := by
+  simp [readOpnd]
+
+theorem commit_nodst (dstW : Nat) (d : DInst) (st : MState) (o : ScalarOut) (h : o.dst = none) :
+    commit dstW d st o = some (commitSpecial st o) := by
+  simp [commit, h]
+
+theorem commit_sgpr32 (fmt op sd a b sm lit : Nat) (hf : fmt = 0 ∨ fmt = 1 ∨ fmt = 2) (hsd : sd ≤ 101)
+    (st : MState) (o : ScalarOut) (v : BitVec 64) (ho : o.dst = some v) :
+    commit 32 ⟨fmt, op, sd, a, b, sm, lit⟩ st o =
+      some (commitSpecial (st.setS sd (v.toNat % 4294967296)) o) := by
+  have e : v.toNat % 4294967296 % 18446744073709551616 % 4294967296 = v.toNat % 4294967296 := by omega
+  rcases hf with rfl | rfl | rfl <;> simp [commit, ho, writeOpnd, hsd, keep, C03S.two32, e]
+
+theorem commit_sgpr64 (fmt op sd a b sm lit : Nat) (hf : fmt = 0 ∨ fmt = 1 ∨ fmt = 2) (hsd : sd ≤ 101)
+    (st : MState) (o : ScalarOut) (v : BitVec 64) (ho : o.dst = some v) :
+    commit 64 ⟨fmt, op, sd, a, b, sm, lit⟩ st o =
+      some (commitSpecial ((st.setS sd (v.toNat % 4294967296)).setS (sd + 1) (v.toNat / 4294967296 % 4294967296)) o) := by
+  rcases hf with rfl | rfl | rfl <;> simp [commit, ho, writeOpnd, hsd, keep, C03S.two32]
+
+theorem commitSpecial_s (st : MState) (o : ScalarOut) : (commitSpecial st o).s = st.s := by
+  unfold commitSpecial
+  cases o.exec <;> cases o.vcc <;> cases o.scc <;> cases o.pc <;> rfl
+theorem commitSpecial_vcc (st : MState) (o : ScalarOut) :
+    (commitSpecial st o).vcc = match o.vcc with | some v => v.toNat | none => st.vcc := by
+  unfold commitSpecial
+  cases o.exec <;> cases o.vcc <;> cases o.scc <;> cases o.pc <;> rfl
+theorem commitSpecial_exec (st : MState) (o : ScalarOut) :
+    (commitSpecial st o).exec = match o.exec with | some v => v.toNat | none => st.exec := by
+  unfold commitSpecial
+  cases o.exec <;> cases o.vcc <;> cases o.scc <;> cases o.pc <;> rfl
+theorem commitSpecial_pc (st : MState) (o : ScalarOut) :
+    (commitSpecial st o).pc = match o.pc with | some v => v.toNat | none => st.pc := by
+  unfold commitSpecial
+  cases o.exec <;> cases o.vcc <;> cases o.scc <;> cases o.pc <;> rfl
+
+end Iface
+
+/-! ### C03V: operand fetch, memory access and address arithmetic
+
+What the proofs use of `C03V.St.src`, `laneRd` (the operand fetch inside `execVALU`; the loop itself is
+`execVALU_unfold` in `C01Valu.lean`), `memRead`, `rvN`, the SMEM / FLAT address expressions of
+`execSMEM` / `execFLAT` (`sAddr`, `gAddr`: the instruction-specific `exec … = some …` facts in `C01Copy.lean`
+are stated with them and proved by `rfl`), and the write lists `wrS32`, `wrVN`, `wrMemBytes`. -/
+
+theorem laneRd_int32 (st : St) (e : VEnc) (l code idx : Nat) (hs : e.sdwa = false) (hty : e.op.ty = Ty.int) :
+    laneRd st e l code 32 idx = lo32 (st.src code l 32 e.lit false) := by
+  unfold laneRd
+  simp [hs, hty, applyMod, show (Ty.int == Ty.f64) = false from rfl, show (Ty.int == Ty.int) = true from rfl]
+
+theorem laneRd_int64 (st : St) (e : VEnc) (l code idx : Nat) (hs : e.sdwa = false) (hty : e.op.ty = Ty.int) :
+    laneRd st e l code 64 idx = st.src code l 64 e.lit false % 2 ^ 64 := by
+  unfold laneRd
+  simp [hs, hty, applyMod, show (Ty.int == Ty.f64) = false from rfl, show (Ty.int == Ty.int) = true from rfl]
+
+theorem src_sgpr (st : St) (c l w lit : Nat) (f : Bool) (hc : c ≤ 101) (hw : w = 32) : st.src c l w lit f = st.rs c := by
+  subst hw
+  have : ¬ c ≥ 256 := by omega
+  simp [St.src, this, hc]
+
+theorem src_vgpr (st : St) (r l lit : Nat) (f : Bool) : st.src (256 + r) l 32 lit f = st.rv r l := by
+  simp [St.src]
+
+theorem src_vgpr64 (st : St) (r l lit : Nat) (f : Bool) :
+    st.src (256 + r) l 64 lit f = st.rv r l + st.rv (r + 1) l * 2 ^ 32 := by
+  simp [St.src]
+
+theorem src_inline (st : St) (c l w lit : Nat) (f : Bool) (h1 : 128 ≤ c) (h2 : c ≤ 192) : st.src c l w lit f = c - 128 := by
+  have a : ¬ c ≥ 256 := by omega
+  have b : ¬ c ≤ 101 := by omega
+  have c1 : ¬ c = 106 := by omega
+  have c2 : ¬ c = 107 := by omega
+  have c3 : ¬ c = 124 := by omega
+  have c4 : ¬ c = 126 := by omega
+  have c5 : ¬ c = 127 := by omega
+  simp [St.src, a, b, c1, c2, c3, c4, c5, h1, h2]
+
+def rd32 (f : Nat → Nat) (a : Nat) : Nat := f a + f (a + 1) * 2 ^ 8 + f (a + 2) * 2 ^ 16 + f (a + 3) * 2 ^ 24
+
+theorem memRead4 (st : St) (a : Nat) (h : a + 4 ≤ 2 ^ 64) : st.memRead a 4 = rd32 st.rmem a := by
+  have h0 : (a + 0) % 2 ^ 64 = a := Nat.mod_eq_of_lt (by omega)
+  have h1 : (a + 1) % 2 ^ 64 = a + 1 := Nat.mod_eq_of_lt (by omega)
+  have h2 : (a + 2) % 2 ^ 64 = a + 2 := Nat.mod_eq_of_lt (by omega)
+  have h3 : (a + 3) % 2 ^ 64 = a + 3 := Nat.mod_eq_of_lt (by omega)
+  unfold St.memRead leNat rd32
+  rw [show List.range 4 = [0, 1, 2, 3] from rfl]
+  simp only [List.map_cons, List.map_nil, h0, h1, h2, h3]
+  rw [show ∀ (b0 b1 b2 b3 : Nat), [b0, b1, b2, b3].zipIdx = [(b0, 0), (b1, 1), (b2, 2), (b3, 3)] from fun _ _ _ _ => rfl]
+  rw [List.foldl_cons, List.foldl_cons, List.foldl_cons, List.foldl_cons, List.foldl_nil]
+  show 0 + st.rmem a * 2 ^ (8 * 0) + st.rmem (a + 1) * 2 ^ (8 * 1) + st.rmem (a + 2) * 2 ^ (8 * 2) + st.rmem (a + 3) * 2 ^ (8 * 3) = _
+  rw [Nat.mul_zero, Nat.pow_zero, Nat.mul_one, Nat.zero_add, Nat.mul_one]
+
+theorem rvN2 (st : St) (r l : Nat) : st.rvN r l 2 = st.rv r l + st.rv (r + 1) l * 2 ^ 32 := by
+  unfold St.rvN
+  rw [show List.range 2 = [0, 1] from rfl]
+  rw [List.foldl_cons, List.foldl_cons, List.foldl_nil]
+  rw [Nat.add_zero, Nat.mul_zero, Nat.pow_zero, Nat.mul_one, Nat.zero_add, Nat.mul_one]
+theorem rvN1 (st : St) (r l : Nat) : st.rvN r l 1 = st.rv r l := by
+  unfold St.rvN
+  rw [show List.range 1 = [0] from rfl]
+  rw [List.foldl_cons, List.foldl_nil]
+  rw [Nat.add_zero, Nat.mul_zero, Nat.pow_zero, Nat.mul_one, Nat.zero_add]
+
+/-- the FLAT address of a lane on GCN3: the 64-bit VGPR pair, no offset -/
+def gAddr (st : St) (va l : Nat) : Nat := ((((st.rvN va l 2 : Nat) : Int) + 0) % (2 ^ 64 : Int)).toNat
+
+theorem gAddr_eq (st : St) (va l : Nat) : gAddr st va l = (st.rv va l + st.rv (va + 1) l * 2 ^ 32) % 2 ^ 64 := by
+  unfold gAddr
+  rw [rvN2, Int.add_zero]
+  generalize st.rv va l + st.rv (va + 1) l * 2 ^ 32 = x
+  have : ((2 : Int) ^ 64) = ((2 ^ 64 : Nat) : Int) := by norm_cast
+  rw [this, ← Int.natCast_emod, Int.toNat_natCast]
+
+/-- the SMEM address: SGPR pair plus immediate offset, the two low bits ignored -/
+def sAddr (st : St) (sb off : Nat) : Nat :=
+  ((((st.sreg64 sb : Nat) : Int) + ((off : Nat) : Int)) % (2 ^ 64 : Int)).toNat / 4 * 4
+
+theorem align4 (a : Nat) (h : a < 2 ^ 64) (h4 : a % 4 = 0) : a % 2 ^ 64 / 4 * 4 = a := by omega
+
+theorem sAddr_eq (st : St) (sb off : Nat) (hsb : sb ≤ 100) :
+    sAddr st sb off = (st.rs sb + st.rs (sb + 1) * 2 ^ 32 + off) % 2 ^ 64 / 4 * 4 := by
+  unfold sAddr St.sreg64
+  have h1 : (sb == 106) = false := by simp only [beq_eq_false_iff_ne, ne_eq]; omega
+  have h2 : (sb == 126) = false := by simp only [beq_eq_false_iff_ne, ne_eq]; omega
+  simp only [h1, h2, Bool.false_eq_true, if_false]
+  generalize st.rs sb + st.rs (sb + 1) * 2 ^ 32 = x
+  have : ((2 : Int) ^ 64) = ((2 ^ 64 : Nat) : Int) := by norm_cast
+  rw [this, ← Int.natCast_add, ← Int.natCast_emod, Int.toNat_natCast]
+
+theorem wrS32_sgpr (st : St) (c x : Nat) (hc : c ≤ 101) : wrS32 st c x = [(Cell.s c, lo32 x)] := by
+  unfold wrS32
+  have h1 : (c == 106) = false := by simp only [beq_eq_false_iff_ne, ne_eq]; omega
+  have h2 : (c == 107) = false := by simp only [beq_eq_false_iff_ne, ne_eq]; omega
+  have h3 : (c == 124) = false := by simp only [beq_eq_false_iff_ne, ne_eq]; omega
+  have h4 : (c == 126) = false := by simp only [beq_eq_false_iff_ne, ne_eq]; omega
+  have h5 : (c == 127) = false := by simp only [beq_eq_false_iff_ne, ne_eq]; omega
+  simp only [h1, h2, h3, h4, h5, Bool.false_eq_true, if_false]
+
+/-- the enabled lanes of an EXEC mask (this is `C03V.activeLanes`) -/
+def lanesOf (e : Nat) : List Nat := (List.range 64).filter fun i => e.testBit i
+
+theorem mem_lanesOf (e l : Nat) : l ∈ lanesOf e ↔ l < 64 ∧ e.testBit l = true := by
+  simp [lanesOf]
+
+theorem lanesOf_nodup (e : Nat) : (lanesOf e).Nodup := (List.filter_sublist).nodup List.nodup_range
+
+theorem activeLanes_eq (st : St) : activeLanes st = lanesOf st.exec := rfl
+
+theorem wrVN1 (r l x : Nat) : wrVN r l 1 x = [(Cell.v r l, x % 2 ^ 32)] := by
+  unfold wrVN
+  rw [show List.range 1 = [0] from rfl, List.map_cons, List.map_nil, Nat.add_zero, Nat.mul_zero, Nat.pow_zero, Nat.div_one]
+
+/-- the (address, byte) pairs of one lane's dword store -/
+def storePairs (a x : Nat) : List (Nat × Nat) :=
+  [(a, x % 256), (a + 1, x / 256 % 256), (a + 2, x / 65536 % 256), (a + 3, x / 16777216 % 256)]
+
+theorem wrMemBytes4 (a x : Nat) (h : a + 4 ≤ 2 ^ 64) :
+    wrMemBytes a 4 x = (storePairs a x).map fun p => (Cell.mem p.1, p.2) := by
+  have h0 : (a + 0) % 2 ^ 64 = a := Nat.mod_eq_of_lt (by omega)
+  have h1 : (a + 1) % 2 ^ 64 = a + 1 := Nat.mod_eq_of_lt (by omega)
+  have h2 : (a + 2) % 2 ^ 64 = a + 2 := Nat.mod_eq_of_lt (by omega)
+  have h3 : (a + 3) % 2 ^ 64 = a + 3 := Nat.mod_eq_of_lt (by omega)
+  unfold wrMemBytes bytesOf storePairs
+  rw [show List.range 4 = [0, 1, 2, 3] from rfl]
+  simp only [List.map_cons, List.map_nil]
+  rw [show ∀ (b0 b1 b2 b3 : Nat), [b0, b1, b2, b3].zipIdx = [(b0, 0), (b1, 1), (b2, 2), (b3, 3)] from fun _ _ _ _ => rfl]
+  simp only [List.map_cons, List.map_nil, h0, h1, h2, h3]
+  rw [Nat.mul_zero, Nat.pow_zero, Nat.div_one]
+
+/-! ### C04: decoding
+
+`DecV` / `DecS` facts (`C01Step.lean`) are obtained by evaluating `C04.decode` in the kernel; SOP2 needs the
+lemmas below because the decoder looks for "64" in the mnemonic (`String.splitOn`, which the kernel cannot
+evaluate) — that only changes register counts, which `toDInst` does not read. -/
+
+theorem dec_t1 (buf : List Nat) (hlen : buf.length = 8) :
+    C04.decode false buf = C04.decodeCore C04.lookUp false (C04.le32 buf 0) (some (C04.le32 buf 4)) := by
+  have hl : C04.lookUpArch false = C04.lookUp := by
+    funext ft op; simp [C04.lookUpArch]
+  unfold C04.decode C04.decodeWith
+  rw [if_neg (by omega), if_pos (by omega), hl]
+
+theorem dec_t2 (w0 : Nat) (w1 : Option Nat) (f : Gen.Format) (row : Gen.Row)
+    (hf : C04.matchFormat w0 = some f)
+    (hr : C04.lookUp f.ft (C04.extractBits w0 f.opLo f.opHi) = some row) :
+    C04.decodeCore C04.lookUp false w0 w1 = C04.decodeRow false f row w0 w1 := by
+  unfold C04.decodeCore
+  rw [hf]
+  simp only
+  rw [hr]
+
+theorem dec_t3 (w0 w1 : Nat) (f : Gen.Format) (row : Gen.Row) (hft : f.ft = 0) (hsz : f.size = 4) :
+    C04.decodeRow false f row w0 (some w1) =
+      match C04.decodeSOP2 { name := row.name, ft := 0, opcode := row.opcode } w0 with
+      | .done i => .ok { i with size := 4 }
+      | .err => .err
+      | .more k => (k w1).setSize 8 := by
+  unfold C04.decodeRow
+  rw [hsz, hft]
+  simp only [show ((4 : Nat) == 8) = false from rfl, Bool.false_eq_true, if_false]
+  unfold C04.dec4
+  simp only [show ((0 : Nat) == Gen.FT_SOP2) = true from rfl, if_true]
+  generalize C04.decodeSOP2 _ _ = r
+  cases r <;> rfl
+
+theorem opndCode_setCount (o : C04.Opnd) (n : Nat) : opndCode (some (o.setCount n)) = opndCode (some o) := by
+  cases o <;> rfl
+theorem opndLit_setCount (o : C04.Opnd) (n : Nat) : opndLit (some (o.setCount n)) = opndLit (some o) := by
+  cases o <;> rfl
+theorem opndCode_setLit (o : C04.Opnd) (v : Nat) : opndCode (some (C04.setLit o v)) = opndCode (some o) := by
+  cases o <;> rfl
+theorem setCount_setLit (o : C04.Opnd) (n v : Nat) : (C04.setLit o v).setCount n = C04.setLit (o.setCount n) v := by
+  cases o <;> rfl
+theorem opndCode_ite (c : Bool) (o : C04.Opnd) (n : Nat) :
+    opndCode (some (if c = true then o.setCount n else o)) = opndCode (some o) := by
+  cases c <;> simp [opndCode_setCount]
+theorem opndLit_ite (c : Bool) (o : C04.Opnd) (n : Nat) :
+    opndLit (some (if c = true then o.setCount n else o)) = opndLit (some o) := by
+  cases c <;> simp [opndLit_setCount]
+
+theorem sop2_dinst (nm : String) (op w w1 : Nat) (s0 s1 d : C04.Opnd)
+    (h0 : C04.getOperand (C04.extractBits w 0 7) = some s0)
+    (h1 : C04.getOperand (C04.extractBits w 8 15) = some s1)
+    (hd : C04.getOperand (C04.extractBits w 16 22) = some d) :
+    ∃ i, (match C04.decodeSOP2 { name := nm, ft := 0, opcode := op } w with
+          | .done i => C04.Outcome.ok { i with size := 4 }
+          | .err => .err
+          | .more k => (k w1).setSize 8) = .ok i ∧ i.ft = 0 ∧ i.opcode = op ∧
+      i.size = (if (s0.isLit || s1.isLit) = true then 8 else 4) ∧
+      toDInst i = ⟨0, op, opndCode (some d), opndCode (some s0), opndCode (some s1), 0,
+        if (s0.isLit || s1.isLit) = true then
+          (opndLit (some (C04.setLit s0 w1))).getD ((opndLit (some (C04.setLit s1 w1))).getD 0)
+        else (opndLit (some s0)).getD ((opndLit (some s1)).getD 0)⟩ := by
+  unfold C04.decodeSOP2
+  rw [h0, h1, hd]
+  simp only
+  generalize C04.containsSub nm "64" = wide
+  cases hl : (s0.isLit || s1.isLit)
+  · simp only [Bool.false_eq_true, if_false]
+    refine ⟨_, rfl, rfl, rfl, rfl, ?_⟩
+    simp only [toDInst, opndCode_ite, opndLit_ite]
+  · simp only [if_true]
+    refine ⟨_, rfl, rfl, rfl, rfl, ?_⟩
+    simp only [toDInst, C04.Outcome.setSize, opndCode_ite, opndLit_ite, opndCode_setLit]
+
+/-- a SOP2 instruction from table look-ups that the kernel evaluates (`decide +kernel`) -/
+theorem DecS_sop2 (buf : List Nat) (f : Gen.Format) (row : Gen.Row) (s0 s1 d : C04.Opnd)
+    (hlen : buf.length = 8)
+    (hf : C04.matchFormat (C04.le32 buf 0) = some f) (hft : f.ft = 0) (hsz : f.size = 4)
+    (hr : C04.lookUp f.ft (C04.extractBits (C04.le32 buf 0) f.opLo f.opHi) = some row)
+    (h0 : C04.getOperand (C04.extractBits (C04.le32 buf 0) 0 7) = some s0)
+    (h1 : C04.getOperand (C04.extractBits (C04.le32 buf 0) 8 15) = some s1)
+    (hd : C04.getOperand (C04.extractBits (C04.le32 buf 0) 16 22) = some d) :
+    DecS buf 0 row.opcode (if (s0.isLit || s1.isLit) = true then 8 else 4)
+      ⟨0, row.opcode, opndCode (some d), opndCode (some s0), opndCode (some s1), 0,
+        if (s0.isLit || s1.isLit) = true then
+          (opndLit (some (C04.setLit s0 (C04.le32 buf 4)))).getD ((opndLit (some (C04.setLit s1 (C04.le32 buf 4)))).getD 0)
+        else (opndLit (some s0)).getD ((opndLit (some s1)).getD 0)⟩ := by
+  unfold DecS
+  rw [dec_t1 buf hlen, dec_t2 _ _ f row hf hr, dec_t3 _ _ f row hft hsz]
+  exact sop2_dinst row.name row.opcode _ _ s0 s1 d h0 h1 hd
+
 theorem flatMap_congr' {α β : Type} (l : List α) (f g : α → List β) (h : ∀ x ∈ l, f x = g x) :
     l.flatMap f = l.flatMap g := by
   induction l with
@@ -53,40 +356,6 @@ theorem sel_wrV64 (r l D d old : Nat) (hl : l < 64) :
       have b : ¬ (D + 1) * 64 = r * 64 := by omega
       simp [h, h1, a, b]
 
-/-! ## operand fetch of integer, non-SDWA encodings -/
-
-theorem laneRd_int32 (st : St) (e : VEnc) (l code idx : Nat) (hs : e.sdwa = false) (hty : e.op.ty = Ty.int) :
-    laneRd st e l code 32 idx = lo32 (st.src code l 32 e.lit false) := by
-  unfold laneRd
-  simp [hs, hty, applyMod, show (Ty.int == Ty.f64) = false from rfl, show (Ty.int == Ty.int) = true from rfl]
-
-theorem laneRd_int64 (st : St) (e : VEnc) (l code idx : Nat) (hs : e.sdwa = false) (hty : e.op.ty = Ty.int) :
-    laneRd st e l code 64 idx = st.src code l 64 e.lit false % 2 ^ 64 := by
-  unfold laneRd
-  simp [hs, hty, applyMod, show (Ty.int == Ty.f64) = false from rfl, show (Ty.int == Ty.int) = true from rfl]
-
-theorem src_sgpr (st : St) (c l w lit : Nat) (f : Bool) (hc : c ≤ 101) (hw : w = 32) : st.src c l w lit f = st.rs c := by
-  subst hw
-  have : ¬ c ≥ 256 := by omega
-  simp [St.src, this, hc]
-
-theorem src_vgpr (st : St) (r l lit : Nat) (f : Bool) : st.src (256 + r) l 32 lit f = st.rv r l := by
-  simp [St.src]
-
-theorem src_vgpr64 (st : St) (r l lit : Nat) (f : Bool) :
-    st.src (256 + r) l 64 lit f = st.rv r l + st.rv (r + 1) l * 2 ^ 32 := by
-  simp [St.src]
-
-theorem src_inline (st : St) (c l w lit : Nat) (f : Bool) (h1 : 128 ≤ c) (h2 : c ≤ 192) : st.src c l w lit f = c - 128 := by
-  have a : ¬ c ≥ 256 := by omega
-  have b : ¬ c ≤ 101 := by omega
-  have c1 : ¬ c = 106 := by omega
-  have c2 : ¬ c = 107 := by omega
-  have c3 : ¬ c = 124 := by omega
-  have c4 : ¬ c = 126 := by omega
-  have c5 : ¬ c = 127 := by omega
-  simp [St.src, a, b, c1, c2, c3, c4, c5, h1, h2]
-
 /-! ## scalar classes -/
 
 theorem sees_ofM {st : St} {V : View} (h : Sees st V) (m : C03S.MState) :
@@ -124,7 +393,8 @@ open C03S in
 theorem sem_wait (x : Nat) : C03S.specSem ⟨4, 12, 0, 0, 0, x, 0⟩ = some ⟨0, 0, 0, Spec.s_waitcnt⟩ := rfl
 open C03S in
 theorem exe_wait (x : Nat) (M : MState) : execute ⟨0, 0, 0, Spec.s_waitcnt⟩ ⟨4, 12, 0, 0, 0, x, 0⟩ M = some M := by
-  simp [execute, Spec.s_waitcnt, Spec.nothing, ScalarOut.nothing]
+  rw [Iface.execute_eq _ _ _ _ (Iface.fetch_sopp 0 0 12 0 0 0 x 0 M), Iface.commit_nodst _ _ _ _ rfl]
+  rfl
 
 /-- S_WAITCNT -/
 theorem step_wait (P : Program) (hP : P.cdna3 = false) (base k x : Nat)
@@ -147,7 +417,15 @@ theorem sem_and : C03S.specSem ⟨0, 12, 0, 0, 255, 0, 0xffff⟩ = some ⟨32, 3
 open C03S in
 theorem exe_and (M : MState) : ∃ m', execute ⟨32, 32, 32, Spec.s_and_b32⟩ ⟨0, 12, 0, 0, 255, 0, 0xffff⟩ M = some m' ∧
     m'.s = (M.setS 0 (M.sreg 0 % 65536)).s ∧ m'.vcc = M.vcc ∧ m'.exec = M.exec ∧ m'.pc = M.pc := by
-  simp [execute, readOpnd, writeOpnd, Spec.s_and_b32, Spec.logic32, Spec.ret32, Spec.lo, Spec.w32, Spec.bit, keep, C03S.two32, and_ffff]
+  rw [Iface.execute_eq _ _ _ _ (Iface.fetch_sop2 32 32 12 0 0 255 0 0xffff M _ _
+    (Iface.read_sgpr32 M 0 _ (by decide)) (Iface.read_lit M 32 _))]
+  rw [Iface.commit_sgpr32 0 12 0 0 255 0 0xffff (Or.inl rfl) (by decide) M _ _ rfl]
+  refine ⟨_, rfl, ?_, ?_, ?_, ?_⟩
+  · rw [Iface.commitSpecial_s]
+    simp [Iface.scalarIn, Spec.lo, Spec.w32, and_ffff]
+  · rw [Iface.commitSpecial_vcc]; rfl
+  · rw [Iface.commitSpecial_exec]; rfl
+  · rw [Iface.commitSpecial_pc]; rfl
 
 /-- S_AND_B32 s0, s0, 0xffff -/
 theorem step_and_ffff (P : Program) (hP : P.cdna3 = false) (base k : Nat)
@@ -172,7 +450,10 @@ open C03S in
 theorem exe_mul (D A B : Nat) (hD : D ≤ 101) (hA : A ≤ 101) (hB : B ≤ 101) (M : MState) :
     execute ⟨32, 32, 32, Spec.s_mul_i32⟩ ⟨0, 36, D, A, B, 0, 0⟩ M =
     some (M.setS D (M.sreg A * M.sreg B % 4294967296)) := by
-  simp [execute, readOpnd, writeOpnd, Spec.s_mul_i32, Spec.ret32n, Spec.lo, Spec.w32, keep, C03S.two32, hD, hA, hB]
+  rw [Iface.execute_eq _ _ _ _ (Iface.fetch_sop2 32 32 36 D A B 0 0 M _ _
+    (Iface.read_sgpr32 M A _ hA) (Iface.read_sgpr32 M B _ hB))]
+  rw [Iface.commit_sgpr32 0 36 D A B 0 0 (Or.inl rfl) hD M _ _ rfl]
+  simp [Iface.scalarIn, Spec.lo, Spec.w32, commitSpecial, Spec.s_mul_i32, Spec.ret32n]
 
 /-- S_MUL_I32 sD, sA, sB -/
 theorem step_mul (P : Program) (hP : P.cdna3 = false) (base k D A B : Nat) (hD : D ≤ 101) (hA : A ≤ 101) (hB : B ≤ 101)
@@ -198,9 +479,15 @@ theorem exe_saveexec (M : MState) (hv : M.vcc < 18446744073709551616) (he : M.ex
     ∃ m', execute ⟨64, 64, 0, Spec.s_and_saveexec_b64⟩ ⟨2, 32, 0, 106, 0, 0, 0⟩ M = some m' ∧
     m'.s = ((M.setS 0 (M.exec % 4294967296)).setS 1 (M.exec / 4294967296 % 4294967296)).s ∧
     m'.vcc = M.vcc ∧ m'.exec = M.vcc &&& M.exec ∧ m'.pc = M.pc := by
-  simp [execute, readOpnd, writeOpnd, Spec.s_and_saveexec_b64, Spec.saveexec, Spec.bit, keep, C03S.two32]
-  rw [Nat.mod_eq_of_lt hv, Nat.mod_eq_of_lt he]
-  exact ⟨rfl, rfl⟩
+  rw [Iface.execute_eq _ _ _ _ (Iface.fetch_sop1 64 0 32 0 106 0 0 0 M _ (Iface.read_vcc64 M _))]
+  rw [Iface.commit_sgpr64 2 32 0 106 0 0 0 (Or.inr (Or.inr rfl)) (by decide) M _ _ rfl]
+  refine ⟨_, rfl, ?_, ?_, ?_, ?_⟩
+  · rw [Iface.commitSpecial_s]
+    simp [Iface.scalarIn, Nat.mod_eq_of_lt he]
+  · rw [Iface.commitSpecial_vcc]; rfl
+  · rw [Iface.commitSpecial_exec]
+    simp [Iface.scalarIn, Spec.s_and_saveexec_b64, Spec.saveexec, Nat.mod_eq_of_lt he, Nat.mod_eq_of_lt hv]
+  · rw [Iface.commitSpecial_pc]; rfl
 
 /-- S_AND_SAVEEXEC_B64 s[0:1], vcc -/
 theorem step_saveexec (P : Program) (hP : P.cdna3 = false) (base k : Nat)
@@ -233,12 +520,27 @@ theorem exe_execz18 (M : MState) (he : M.exec < 18446744073709551616) (hp : M.pc
   have hz : (BitVec.ofNat 64 M.exec = 0#64) ↔ M.exec = 0 := by
     rw [BitVec.toNat_eq]
     simp [Nat.mod_eq_of_lt he]
+  rw [Iface.execute_eq _ _ _ _ (Iface.fetch_sopp 0 0 8 0 0 0 18 0 M)]
+  show ∃ m', commit 0 ⟨4, 8, 0, 0, 0, 18, 0⟩ M (Spec.s_cbranch_execz (Iface.scalarIn M 0 0 0 18)) = some m' ∧ _
   by_cases h0 : M.exec = 0
   · have h0' : BitVec.ofNat 64 M.exec = 0#64 := hz.mpr h0
-    simp [execute, Spec.s_cbranch_execz, Spec.cbranch, Spec.retPc, Spec.target, Spec.imm64, Spec.nothing, ScalarOut.nothing, h0, h0']
-    omega
+    have ho : (Spec.s_cbranch_execz (Iface.scalarIn M 0 0 0 18)) = Spec.retPc (BitVec.ofNat 64 M.pc + 72#64) := by
+      simp [Spec.s_cbranch_execz, Spec.cbranch, Iface.scalarIn, h0', Spec.target, Spec.imm64]
+    rw [ho, Iface.commit_nodst _ _ _ _ rfl]
+    refine ⟨_, rfl, Iface.commitSpecial_s _ _, ?_, ?_, ?_⟩
+    · rw [Iface.commitSpecial_vcc]; rfl
+    · rw [Iface.commitSpecial_exec]; rfl
+    · rw [Iface.commitSpecial_pc, if_pos h0]
+      simp [Spec.retPc, BitVec.toNat_add]
+      omega
   · have h0' : ¬ BitVec.ofNat 64 M.exec = 0#64 := fun e => h0 (hz.mp e)
-    simp [execute, Spec.s_cbranch_execz, Spec.cbranch, Spec.retPc, Spec.target, Spec.imm64, Spec.nothing, ScalarOut.nothing, h0, h0']
+    have ho : (Spec.s_cbranch_execz (Iface.scalarIn M 0 0 0 18)) = Spec.nothing := by
+      simp [Spec.s_cbranch_execz, Spec.cbranch, Iface.scalarIn, h0']
+    rw [ho, Iface.commit_nodst _ _ _ _ rfl]
+    refine ⟨_, rfl, Iface.commitSpecial_s _ _, ?_, ?_, ?_⟩
+    · rw [Iface.commitSpecial_vcc]; rfl
+    · rw [Iface.commitSpecial_exec]; rfl
+    · rw [Iface.commitSpecial_pc, if_neg h0]; rfl
 
 /-- S_CBRANCH_EXECZ 18 -/
 theorem step_execz18 (P : Program) (hP : P.cdna3 = false) (base k : Nat)
@@ -652,71 +954,13 @@ theorem step_vashr64 (P : Program) (hP : P.cdna3 = false) (base k n R D : Nat) (
 
 /-! ## memory classes -/
 
-def rd32 (f : Nat → Nat) (a : Nat) : Nat := f a + f (a + 1) * 2 ^ 8 + f (a + 2) * 2 ^ 16 + f (a + 3) * 2 ^ 24
-
-theorem memRead4 (st : St) (a : Nat) (h : a + 4 ≤ 2 ^ 64) : st.memRead a 4 = rd32 st.rmem a := by
-  have h0 : (a + 0) % 2 ^ 64 = a := Nat.mod_eq_of_lt (by omega)
-  have h1 : (a + 1) % 2 ^ 64 = a + 1 := Nat.mod_eq_of_lt (by omega)
-  have h2 : (a + 2) % 2 ^ 64 = a + 2 := Nat.mod_eq_of_lt (by omega)
-  have h3 : (a + 3) % 2 ^ 64 = a + 3 := Nat.mod_eq_of_lt (by omega)
-  unfold St.memRead leNat rd32
-  rw [show List.range 4 = [0, 1, 2, 3] from rfl]
-  simp only [List.map_cons, List.map_nil, h0, h1, h2, h3]
-  rw [show ∀ (b0 b1 b2 b3 : Nat), [b0, b1, b2, b3].zipIdx = [(b0, 0), (b1, 1), (b2, 2), (b3, 3)] from fun _ _ _ _ => rfl]
-  rw [List.foldl_cons, List.foldl_cons, List.foldl_cons, List.foldl_cons, List.foldl_nil]
-  show 0 + st.rmem a * 2 ^ (8 * 0) + st.rmem (a + 1) * 2 ^ (8 * 1) + st.rmem (a + 2) * 2 ^ (8 * 2) + st.rmem (a + 3) * 2 ^ (8 * 3) = _
-  rw [Nat.mul_zero, Nat.pow_zero, Nat.mul_one, Nat.zero_add, Nat.mul_one]
-
-theorem rvN2 (st : St) (r l : Nat) : st.rvN r l 2 = st.rv r l + st.rv (r + 1) l * 2 ^ 32 := by
-  unfold St.rvN
-  rw [show List.range 2 = [0, 1] from rfl]
-  rw [List.foldl_cons, List.foldl_cons, List.foldl_nil]
-  rw [Nat.add_zero, Nat.mul_zero, Nat.pow_zero, Nat.mul_one, Nat.zero_add, Nat.mul_one]
-theorem rvN1 (st : St) (r l : Nat) : st.rvN r l 1 = st.rv r l := by
-  unfold St.rvN
-  rw [show List.range 1 = [0] from rfl]
-  rw [List.foldl_cons, List.foldl_nil]
-  rw [Nat.add_zero, Nat.mul_zero, Nat.pow_zero, Nat.mul_one, Nat.zero_add]
-
-/-- the FLAT address of a lane on GCN3: the 64-bit VGPR pair, no offset -/
-def gAddr (st : St) (va l : Nat) : Nat := ((((st.rvN va l 2 : Nat) : Int) + 0) % (2 ^ 64 : Int)).toNat
-
-theorem gAddr_eq (st : St) (va l : Nat) : gAddr st va l = (st.rv va l + st.rv (va + 1) l * 2 ^ 32) % 2 ^ 64 := by
-  unfold gAddr
-  rw [rvN2, Int.add_zero]
-  generalize st.rv va l + st.rv (va + 1) l * 2 ^ 32 = x
-  have : ((2 : Int) ^ 64) = ((2 ^ 64 : Nat) : Int) := by norm_cast
-  rw [this, ← Int.natCast_emod, Int.toNat_natCast]
-
-/-- the SMEM address: SGPR pair plus immediate offset -/
-def sAddr (st : St) (sb off : Nat) : Nat := ((((st.sreg64 sb : Nat) : Int) + ((off : Nat) : Int)) % (2 ^ 64 : Int)).toNat
-
-theorem sAddr_eq (st : St) (sb off : Nat) (hsb : sb ≤ 100) :
-    sAddr st sb off = (st.rs sb + st.rs (sb + 1) * 2 ^ 32 + off) % 2 ^ 64 := by
-  unfold sAddr St.sreg64
-  have h1 : (sb == 106) = false := by simp only [beq_eq_false_iff_ne, ne_eq]; omega
-  have h2 : (sb == 126) = false := by simp only [beq_eq_false_iff_ne, ne_eq]; omega
-  simp only [h1, h2, Bool.false_eq_true, if_false]
-  generalize st.rs sb + st.rs (sb + 1) * 2 ^ 32 = x
-  have : ((2 : Int) ^ 64) = ((2 ^ 64 : Nat) : Int) := by norm_cast
-  rw [this, ← Int.natCast_add, ← Int.natCast_emod, Int.toNat_natCast]
-
-theorem wrS32_sgpr (st : St) (c x : Nat) (hc : c ≤ 101) : wrS32 st c x = [(Cell.s c, lo32 x)] := by
-  unfold wrS32
-  have h1 : (c == 106) = false := by simp only [beq_eq_false_iff_ne, ne_eq]; omega
-  have h2 : (c == 107) = false := by simp only [beq_eq_false_iff_ne, ne_eq]; omega
-  have h3 : (c == 124) = false := by simp only [beq_eq_false_iff_ne, ne_eq]; omega
-  have h4 : (c == 126) = false := by simp only [beq_eq_false_iff_ne, ne_eq]; omega
-  have h5 : (c == 127) = false := by simp only [beq_eq_false_iff_ne, ne_eq]; omega
-  simp only [h1, h2, h3, h4, h5, Bool.false_eq_true, if_false]
-
 /-- S_LOAD_DWORD{,X2,X4} s[sd:sd+n-1], s[sb:sb+1], off -/
 theorem step_smem (P : Program) (hP : P.cdna3 = false) (base k op n sd sb off : Nat) (hn0 : 0 < n) (hsd : sd + n ≤ 102) (hsb : sb ≤ 100)
     (hd : DecV ((P.code.drop k).take 8) 5 op 8) (name : String)
     (hex : ∀ st, exec false st (((P.code.drop k).take 8).take 8) =
       some (name, (List.range n).flatMap fun i => wrS32 st (sd + i) (st.memRead (sAddr st sb off + 4 * i) 4)))
     (st : St) (V : View) (h : Sees st V) (hpc : V.pc = base + k) (a : Nat)
-    (ha : V.rs sb + V.rs (sb + 1) * 2 ^ 32 + off = a) (hnw : a + 4 * n ≤ 2 ^ 64) :
+    (ha : V.rs sb + V.rs (sb + 1) * 2 ^ 32 + off = a) (ha4 : a % 4 = 0) (hnw : a + 4 * n ≤ 2 ^ 64) :
     ∃ st', step P base st = .ok (st', .next) ∧ Sees st'
       { V with pc := base + k + 8,
                rs := fun j => if sd ≤ j ∧ j < sd + n then rd32 V.mem (a + 4 * (j - sd)) % 2 ^ 32 else V.rs j } := by
@@ -728,9 +972,9 @@ theorem step_smem (P : Program) (hP : P.cdna3 = false) (base k op n sd sb off : 
   have h1 : Sees st1 { V with pc := base + k + 8 } := by rw [← hst1]; exact h.setPc _
   have hA : sAddr st1 sb off = a := by
     rw [sAddr_eq st1 sb off hsb, h1.rs sb (by clear ha; omega), h1.rs (sb + 1) (by clear ha; omega)]
-    show (V.rs sb + V.rs (sb + 1) * 2 ^ 32 + off) % 2 ^ 64 = a
+    show (V.rs sb + V.rs (sb + 1) * 2 ^ 32 + off) % 2 ^ 64 / 4 * 4 = a
     rw [ha]
-    exact Nat.mod_eq_of_lt halt
+    exact align4 a halt ha4
   rw [hA]
   clear ha hA
   -- the write list, one cell per destination register
@@ -801,20 +1045,6 @@ theorem step_smem (P : Program) (hP : P.cdna3 = false) (base k op n sd sb off : 
 
 
 /-! ### FLAT -/
-
-/-- the enabled lanes of an EXEC mask (this is `C03V.activeLanes`) -/
-def lanesOf (e : Nat) : List Nat := (List.range 64).filter fun i => e.testBit i
-
-theorem mem_lanesOf (e l : Nat) : l ∈ lanesOf e ↔ l < 64 ∧ e.testBit l = true := by
-  simp [lanesOf]
-
-theorem lanesOf_nodup (e : Nat) : (lanesOf e).Nodup := (List.filter_sublist).nodup List.nodup_range
-
-theorem activeLanes_eq (st : St) : activeLanes st = lanesOf st.exec := rfl
-
-theorem wrVN1 (r l x : Nat) : wrVN r l 1 x = [(Cell.v r l, x % 2 ^ 32)] := by
-  unfold wrVN
-  rw [show List.range 1 = [0] from rfl, List.map_cons, List.map_nil, Nat.add_zero, Nat.mul_zero, Nat.pow_zero, Nat.div_one]
 
 /-- FLAT_LOAD_DWORD vD, v[A:A+1] (GCN3: no offset) -/
 theorem step_flat_load (P : Program) (hP : P.cdna3 = false) (base k A D : Nat) (hA : A + 1 < 256)
@@ -898,23 +1128,6 @@ theorem step_flat_load (P : Program) (hP : P.cdna3 = false) (base k A D : Nat) (
     unfold St.rmem
     rw [hml.1]
     exact h1.mem x
-
-/-- the (address, byte) pairs of one lane's dword store -/
-def storePairs (a x : Nat) : List (Nat × Nat) :=
-  [(a, x % 256), (a + 1, x / 256 % 256), (a + 2, x / 65536 % 256), (a + 3, x / 16777216 % 256)]
-
-theorem wrMemBytes4 (a x : Nat) (h : a + 4 ≤ 2 ^ 64) :
-    wrMemBytes a 4 x = (storePairs a x).map fun p => (Cell.mem p.1, p.2) := by
-  have h0 : (a + 0) % 2 ^ 64 = a := Nat.mod_eq_of_lt (by omega)
-  have h1 : (a + 1) % 2 ^ 64 = a + 1 := Nat.mod_eq_of_lt (by omega)
-  have h2 : (a + 2) % 2 ^ 64 = a + 2 := Nat.mod_eq_of_lt (by omega)
-  have h3 : (a + 3) % 2 ^ 64 = a + 3 := Nat.mod_eq_of_lt (by omega)
-  unfold wrMemBytes bytesOf storePairs
-  rw [show List.range 4 = [0, 1, 2, 3] from rfl]
-  simp only [List.map_cons, List.map_nil]
-  rw [show ∀ (b0 b1 b2 b3 : Nat), [b0, b1, b2, b3].zipIdx = [(b0, 0), (b1, 1), (b2, 2), (b3, 3)] from fun _ _ _ _ => rfl]
-  simp only [List.map_cons, List.map_nil, h0, h1, h2, h3]
-  rw [Nat.mul_zero, Nat.pow_zero, Nat.div_one]
 
 theorem sel_mem_map (a : Nat) (ps : List (Nat × Nat)) (f : Nat → Nat) :
     sel (isMem a) (ps.map fun p => (Cell.mem p.1, p.2)) (f a) = applyWrites ps f a := by
